@@ -105,6 +105,7 @@ package cli
 //@   ensures default-before-env: c.options[old(len(c.options))].DefaultValue ==
 //@       ((implements(opt.Value, "values.DefaultValued") && valueIsDefault(opt.Value, t0)) ? "" :
 //@        valueString(opt.Value, implements(opt.Value, "values.DefaultValued") ? t0 + 1 : t0))
+//@   ensures env-flag: c.options[old(len(c.options))].ValueSetFromEnv == (trace[len(trace)-1].kind == 5 && trace[len(trace)-1].b == 1)
 //@   panics duplicate: isType(panicval, "string")
 //@   loop 1 invariant sofar: opt.Names == opt.Names && (forall j int :: 0 <= j && j < $k ==> !old(optStr(names[j]) in c.optionsIdx))
 //@   loop 1 invariant distinct: forall i int, j int :: 0 <= i && i < j && j < $k ==> names[i] != names[j]
@@ -134,7 +135,9 @@ package cli
 //@   ensures default-before-env: c.args[old(len(c.args))].DefaultValue ==
 //@       ((implements(arg.Value, "values.DefaultValued") && valueIsDefault(arg.Value, t0)) ? "" :
 //@        valueString(arg.Value, implements(arg.Value, "values.DefaultValued") ? t0 + 1 : t0))
+//@   ensures env-flag: c.args[old(len(c.args))].ValueSetFromEnv == (trace[len(trace)-1].kind == 5 && trace[len(trace)-1].b == 1)
 //@   panics invalid: isType(panicval, "string")
+//@   panics rejected-leaves-no-trace: len(c.args) == old(len(c.args)) && frameMap(c.argsIdx)
 
 // noFlow: none of the events added since t0 is the start of a flow run (Step.Run) or of a validation (State.Parse)
 //@ pure func noFlow(t0 trace, t trace) bool = len(t) >= len(t0) &&
